@@ -25,9 +25,18 @@ def check(ctx):
         mc.append(dict(cfg=c, expected="counterexample", found=r["error"]))
     drv = build_harness(ctx)
     trace = os.path.join(ctx.scratch, "flush.ndjson")
-    run_driver(ctx, drv, ["flush", "-seed", str(ctx.seed), "-n", "12" if quick else "150", "-budget", "2400" if quick else "60000",
-                          "-scen", "12" if quick else "60", "-out", trace],
-               timeout=600 if quick else 3000)
+    # the driver paces real goroutines (it mostly waits): the cases are split over several driver processes
+    parts = 6 if quick else 12
+    import concurrent.futures
+    def one(i):
+        run_driver(ctx, drv, ["flush", "-seed", str(ctx.seed), "-n", "12" if quick else "150", "-budget", "6000" if quick else "60000",
+                              "-scen", "24" if quick else "60", "-part", str(i), "-parts", str(parts), "-out", trace + ".%d" % i],
+                   timeout=900 if quick else 3000)
+    with concurrent.futures.ThreadPoolExecutor(parts) as ex:
+        list(ex.map(one, range(parts)))
+    with open(trace, "w") as f:
+        for i in range(parts):
+            f.write(open(trace + ".%d" % i).read())
     files, chunks, start, reports = validate_parallel(ctx, "TraceFlush.tla", "TraceFlush.cfg", trace, 4 if quick else 14,
                                                       is_start=lambda ln: ln.startswith('{"op":"fbegin"'), ident=lambda ln: json.loads(ln)["id"])
     stat, viols = {}, []
